@@ -291,7 +291,7 @@ type instConf struct {
 	VMax      int               `json:"vmax"`
 }
 
-const maxSize = 48 * 1024
+const maxSize = 96 * 1024
 
 type instance struct {
 	conf instConf
